@@ -1185,11 +1185,28 @@ async fn run_task_op(env: &mut Env, cmd: u8, title: &Option<Txt>, num: &Option<u
             let snap = env.task_dir.join("data").join("task_snapshots").join(format!("{task_id}.json"));
             let t0 = Instant::now();
             let mut settled = false;
+            // an unreadable snapshot that no longer changes is final (reported by the comparison below): do not sit out the grace
+            let mut unreadable: Option<(u64, Instant)> = None;
             while t0.elapsed() < SNAPSHOT_GRACE {
-                if let Ok(evs) = rip_log::read_snapshot(&snap) {
-                    if evs.len() >= frames.len() {
-                        settled = true;
-                        break;
+                match rip_log::read_snapshot(&snap) {
+                    Ok(evs) => {
+                        unreadable = None;
+                        if evs.len() >= frames.len() {
+                            settled = true;
+                            break;
+                        }
+                    }
+                    Err(_) => {
+                        if let Ok(len) = std::fs::metadata(&snap).map(|m| m.len()) {
+                            match unreadable {
+                                Some((l, since)) if l == len => {
+                                    if since.elapsed() > Duration::from_secs(3) {
+                                        break;
+                                    }
+                                }
+                                _ => unreadable = Some((len, Instant::now())),
+                            }
+                        }
                     }
                 }
                 tokio::time::sleep(Duration::from_millis(5)).await;
